@@ -1480,3 +1480,146 @@ Proof. vm_compute. reflexivity. Qed.
 Example ht_example_pool_exhausted :
   ht_rehash ht_ex_hash 32 0%Z [Some [(0, 1); (16, 2)]%Z] (repeat None 32) 0 0 = Err HT_POOL_EXHAUSTED.
 Proof. vm_compute. reflexivity. Qed.
+
+(* ---------------------------------------------------------------------------------- *)
+(* the same statement with literal equality: iteration results compared SORTED          *)
+(* ---------------------------------------------------------------------------------- *)
+Section HtSort.
+Context {A : Type}.
+Variable leb : A -> A -> bool.
+Hypothesis leb_total : forall a b, leb a b = true \/ leb b a = true.
+Hypothesis leb_trans : forall a b c, leb a b = true -> leb b c = true -> leb a c = true.
+Hypothesis leb_antisym : forall a b, leb a b = true -> leb b a = true -> a = b.
+
+Fixpoint ht_sort_ins (a : A) (l : list A) : list A :=
+  match l with
+  | [] => [a]
+  | x :: r => if leb a x then a :: l else x :: ht_sort_ins a r
+  end.
+
+Fixpoint ht_sort (l : list A) : list A :=
+  match l with
+  | [] => []
+  | a :: r => ht_sort_ins a (ht_sort r)
+  end.
+
+Inductive ht_sorted : list A -> Prop :=
+| HtSortedNil : ht_sorted []
+| HtSortedCons a l : Forall (fun x => leb a x = true) l -> ht_sorted l -> ht_sorted (a :: l).
+
+Lemma ht_sort_ins_perm a l : Permutation (ht_sort_ins a l) (a :: l).
+Proof.
+  induction l as [|x r IH]; simpl; [apply Permutation_refl|].
+  destruct (leb a x); [apply Permutation_refl|].
+  eapply Permutation_trans; [apply perm_skip; exact IH | apply perm_swap].
+Qed.
+
+Lemma ht_sort_perm l : Permutation (ht_sort l) l.
+Proof.
+  induction l as [|a r IH]; simpl; [constructor|].
+  eapply Permutation_trans; [apply ht_sort_ins_perm | apply perm_skip; exact IH].
+Qed.
+
+Lemma ht_sort_ins_sorted a l : ht_sorted l -> ht_sorted (ht_sort_ins a l).
+Proof.
+  induction 1 as [|x r Hx Hr IH]; simpl.
+  - constructor; constructor.
+  - destruct (leb a x) eqn:Hax.
+    + constructor; [|constructor; assumption]. constructor; [exact Hax|].
+      eapply Forall_impl; [|exact Hx]. intros y Hy. eapply leb_trans; eauto.
+    + constructor; [|exact IH].
+      apply (Permutation_Forall (Permutation_sym (ht_sort_ins_perm a r))).
+      constructor; [|exact Hx]. destruct (leb_total a x) as [H|H]; [congruence | exact H].
+Qed.
+
+Lemma ht_sort_sorted l : ht_sorted (ht_sort l).
+Proof. induction l as [|a r IH]; simpl; [constructor | apply ht_sort_ins_sorted; exact IH]. Qed.
+
+Lemma ht_sorted_unique : forall l l', ht_sorted l -> ht_sorted l' -> Permutation l l' -> l = l'.
+Proof.
+  induction l as [|a t IH]; intros l' Hs Hs' HP.
+  - apply Permutation_nil in HP. subst. reflexivity.
+  - destruct l' as [|b t']; [apply Permutation_sym, Permutation_nil in HP; discriminate|].
+    inversion Hs as [|? ? Ha Ht]; subst. inversion Hs' as [|? ? Hb Ht']; subst.
+    assert (a = b) as ->.
+    { assert (In a (b :: t')) as Hin by (eapply Permutation_in; [exact HP | left; reflexivity]).
+      assert (In b (a :: t)) as Hin' by (eapply Permutation_in; [apply Permutation_sym; exact HP | left; reflexivity]).
+      destruct Hin as [Hin|Hin]; [congruence|]. destruct Hin' as [Hin'|Hin']; [congruence|].
+      rewrite Forall_forall in Ha, Hb. apply leb_antisym; auto. }
+    f_equal. apply IH; auto. eapply Permutation_cons_inv; eauto.
+Qed.
+
+Lemma ht_sort_perm_invariant l l' : Permutation l l' -> ht_sort l = ht_sort l'.
+Proof.
+  intros HP. apply ht_sorted_unique; try apply ht_sort_sorted.
+  eapply Permutation_trans; [apply ht_sort_perm|].
+  eapply Permutation_trans; [exact HP | apply Permutation_sym, ht_sort_perm].
+Qed.
+End HtSort.
+
+(* iterations (and the frees of destroy) put into a canonical order *)
+Definition ht_obs_canon {K V : Type} (canon : list (@ht_entry K V) -> list (@ht_entry K V))
+           (o : @ht_obs K V) : @ht_obs K V :=
+  match o with
+  | HtObsAll (Some l) => HtObsAll (Some (canon l))
+  | HtObsDestroy l => HtObsDestroy (canon l)
+  | _ => o
+  end.
+
+Lemma ht_obs_eq_canon {K V : Type} (canon : list (@ht_entry K V) -> list (@ht_entry K V)) :
+  (forall l l', Permutation l l' -> canon l = canon l') ->
+  forall tr tr', Forall2 ht_obs_eq tr tr' -> map (ht_obs_canon canon) tr = map (ht_obs_canon canon) tr'.
+Proof.
+  intros Hc tr tr' H. induction H as [|a b t t' Hab Ht IH]; [reflexivity|].
+  simpl. rewrite IH. f_equal. inversion Hab; subst; simpl; try reflexivity; rewrite (Hc _ _ H); reflexivity.
+Qed.
+
+(* run_model = run_spec, literally, on: return values, freed entries, get results, counts,
+   SORTED iteration - for any total order on the entries *)
+Theorem ht_run_refines_sorted {K V : Type} (keq : K -> K -> bool) (hash : K -> Z -> Z)
+        (leb : @ht_entry K V -> @ht_entry K V -> bool) (vnull : V) (seed : Z) (ops : list (@ht_op K V)) :
+  (forall a, keq a a = true) -> (forall a b, keq a b = keq b a) ->
+  (forall a b c, keq a b = true -> keq b c = true -> keq a c = true) ->
+  (forall a b s, keq a b = true -> hash a s = hash b s) ->
+  (forall a b, leb a b = true \/ leb b a = true) ->
+  (forall a b c, leb a b = true -> leb b c = true -> leb a c = true) ->
+  (forall a b, leb a b = true -> leb b a = true -> a = b) ->
+  Forall (fun op => ~ ht_op_can_fail op) ops ->
+  exists tr, ht_run_model keq hash vnull seed ops = Ok tr /\
+    map (ht_obs_canon (ht_sort leb)) tr = map (ht_obs_canon (ht_sort leb)) (ht_run_spec keq vnull ops []).
+Proof.
+  intros Hr Hs Ht Hc Ltot Ltr Las Hno.
+  destruct (ht_run_refines_nofail keq hash Hr Hs Ht Hc vnull seed ops Hno) as (tr & Hrun & Heq).
+  exists tr. split; [exact Hrun|]. apply ht_obs_eq_canon; [|exact Heq].
+  intros l l' HP. apply ht_sort_perm_invariant; assumption.
+Qed.
+
+(* a total order on (Z * Z) entries: by key, then by value *)
+Definition ht_zz_leb (a b : Z * Z) : bool :=
+  if Z.ltb (fst a) (fst b) then true
+  else if Z.eqb (fst a) (fst b) then Z.leb (snd a) (snd b) else false.
+
+Lemma ht_zz_leb_spec a b :
+  ht_zz_leb a b = true <-> (fst a < fst b \/ (fst a = fst b /\ snd a <= snd b))%Z.
+Proof.
+  unfold ht_zz_leb. destruct (Z.ltb_spec (fst a) (fst b)); [split; auto|].
+  destruct (Z.eqb_spec (fst a) (fst b)).
+  - rewrite Z.leb_le. split; [auto | intros [?|[? ?]]; [lia | assumption]].
+  - split; [discriminate | intros [?|[? ?]]; lia].
+Qed.
+
+Theorem ht_szvp_run_refines_sorted (hash : Z -> Z -> Z) (seed : Z) (ops : list (@ht_op Z Z)) :
+  Forall (fun op => ~ ht_op_can_fail op) ops ->
+  exists tr, ht_run_model ht_szvp_keq hash 0%Z seed ops = Ok tr /\
+    map (ht_obs_canon (ht_sort ht_zz_leb)) tr =
+    map (ht_obs_canon (ht_sort ht_zz_leb)) (ht_run_spec ht_szvp_keq 0%Z ops []).
+Proof.
+  apply ht_run_refines_sorted; unfold ht_szvp_keq.
+  - apply Z.eqb_refl.
+  - apply Z.eqb_sym.
+  - intros a b c H1 H2. apply Z.eqb_eq in H1, H2. apply Z.eqb_eq. congruence.
+  - intros a b s H. apply Z.eqb_eq in H. subst. reflexivity.
+  - intros a b. rewrite !ht_zz_leb_spec. lia.
+  - intros a b c. rewrite !ht_zz_leb_spec. lia.
+  - intros [a1 a2] [b1 b2]. rewrite !ht_zz_leb_spec. simpl. intros H1 H2. f_equal; lia.
+Qed.
